@@ -17,10 +17,17 @@ def geometry(h):
     return csz, a * csz, b * csz
 
 
-def replay_shape(ctx, Grid, c, h):
+def replay_shape(ctx, Grid, c, h, reuse=None):
     nr, nc = c["nr"], c["nc"]
     csz, xll, yll = geometry(h)
-    g = Grid("g", nc, nr, cellsize=csz, xllcorner=xll, yllcorner=yll)
+    if reuse is not None and "g" in reuse:
+        # re-position the grid object used (and already queried) with the previous geometry
+        g = reuse["g"]
+        g.cellsize, g.xllcorner, g.yllcorner = np.float64(csz), np.float64(xll), np.float64(yll)
+    else:
+        g = Grid("g", nc, nr, cellsize=csz, xllcorner=xll, yllcorner=yll)
+        if reuse is not None:
+            reuse["g"] = g
     case = {"nr": nr, "nc": nc, "cellsize": csz, "xll": xll, "yll": yll}
     q = csz / 4.0
     # coord2cell on the whole quarter-cell lattice
@@ -97,9 +104,11 @@ def spec_to_code(ctx, Grid):
         raise Machinery("GridGeom generator: %d shapes" % len(cases))
     ngeo = 12 if ctx.tier == "quick" else 60
     for c in cases:
+        reuse = {}
         for r in range(ngeo):
             h = abs(hash((c["nr"], c["nc"], r, ctx.seed))) if r else 3      # r=0: unit cells at the origin
-            replay_shape(ctx, Grid, c, h)
+            # every second geometry re-positions the same Grid object instead of building a new one
+            replay_shape(ctx, Grid, c, h, reuse if r % 2 else None)
             ctx.count({"nr": c["nr"], "nc": c["nc"], "geo": geometry(h)}, c["nr"] * c["nc"] > 1)
     ctx.traces += len(cases) * ngeo
     ctx.sample({"spec->code": {"nr": cases[-1]["nr"], "nc": cases[-1]["nc"], "geometries": ngeo,
